@@ -183,6 +183,12 @@ def run(tier, seed, out):
     envs = [p["envs"] for p in printed if "envs" in p]
     cases = [p for p in printed if "toks" in p]
     out.extra["design_level_failures_on_model"] = sum(1 for p in printed if "design" in p)
+    if tier == "thorough":
+        rnd, st = kit.simulate_many("C07_Rand", "C07_Rand", runs=8, num=4000, depth=80, seed=seed)
+        out.states += st
+        out.transitions += st
+        out.extra["random_long_strings"] = len(rnd)
+        cases += [p for p in rnd if "toks" in p]
     seen, uniq = set(), []
     for c in cases:
         k = (tuple(c["toks"]), c["garbled"])
